@@ -25,6 +25,18 @@ Inductive callsite :=
 | CCall (callee : string)
 | CDefer (callee : string).
 
+(* a function body as far as its paths and calls go: calls in evaluation order, defers, returns, branches (if / select /
+   switch arms), loops; everything else is dropped *)
+Inductive stm :=
+| SCallF (callee : string)
+| SDeferF (callee : string)
+| SDeferBlock (body : list stm)
+| SGo (callee : string)
+| SReturn
+| SIf (cond : string) (thn els : list stm)
+| SSelect (arms : list (string * list stm))
+| SLoop (body : list stm).
+
 (* element types of an outgoing frame literal *)
 Inductive elty :=
 | TMethodType | TSeqNumber | TCompressionType | TString | TIface | TTags | TOther (s : string).
